@@ -326,10 +326,14 @@ def record_corpus_file(name):
     if df.attrs.get("format") == "PDB":
         cols = ("chainID", "resSeq", "iCode", "name", "model")
     else:
-        cols = ("auth_asym_id", "auth_seq_id", "pdbx_PDB_ins_code", "auth_atom_id", "pdbx_PDB_model_num")
-    first_model = df[cols[4]].iloc[0] if len(df) else None
+        # (files written by other tools may lack the author columns: the label ones stand in, as in the library)
+        pick = lambda *names: next((c for c in names if c in df.columns), None)     # noqa: E731
+        cols = (pick("auth_asym_id", "label_asym_id"), pick("auth_seq_id", "label_seq_id"), pick("pdbx_PDB_ins_code"),
+                pick("auth_atom_id", "label_atom_id"), pick("pdbx_PDB_model_num"))
+    first_model = df[cols[4]].iloc[0] if len(df) and cols[4] else None
     seen_atoms, ambiguous = set(), set()
-    for ch, num, ic, an, mo in zip(*(df[c] for c in cols)):
+    series = [df[c] if c is not None else [None] * len(df) for c in cols]
+    for ch, num, ic, an, mo in zip(*series):
         if mo != first_model:
             continue
         k = (str(ch), int(num), "" if ic is None or ic != ic or str(ic) in ("?", ".", "nan", "None") else str(ic), str(an))
